@@ -133,7 +133,7 @@ Proof.
   intros HI HJ Hsh.
   destruct Hsh as [sg Hb Hn | sg c Hpcn Hb Hn Hd | i sg m Hn Hr Hl Hm1 Hm2
                   | i sg p p' rest k Hn Hr Hp Hw | j sg p p' got q d t pend Hn Hr Hsp Hp Hrd Hpend Hrel
-                  | i sg c Hn Hr].
+                  | i sg c Hn Hr Hexit].
   - (* spawn *)
     intros i sg0 H. cbn [stages] in H. rewrite nth_error_upd in H.
     unfold written, rd_sofar. cbn [pipes].
@@ -218,7 +218,7 @@ Proof.
   intros HI Hsh.
   destruct Hsh as [sg Hb Hn | sg c Hpcn Hb Hn Hd | i sg m Hn Hr Hl Hm1 Hm2
                   | i sg p p' rest k Hn Hr Hp Hw | j sg p p' got q d t pend Hn Hr Hsp Hp Hrd Hpend Hrel
-                  | i sg c Hn Hr]; intros i0 sg0 H Hk Hrun;
+                  | i sg c Hn Hr Hexit]; intros i0 sg0 H Hk Hrun;
     unfold put_stage, exit_stage in *; cbn [stages pc] in *.
   - rewrite nth_error_upd in H. destruct (Nat.eqb_spec (pc s) i0) as [<-|Hne]; [reflexivity|].
     exfalso. unfold inline_busy in Hb.
